@@ -111,6 +111,15 @@ CLAIMED = {
         "DESIGN.md §4 C06",
         "exploration",
     ),
+    "C02": (
+        "metamorphic: Hypothesis-generated scripts run as written and with re-spelled keyword/identifier case on twin instances",
+        "Scripts over a pool of 64 statements of every kind are run on one instance as written and on a second with the letter case of "
+        "every keyword and unquoted identifier changed by a generated mask (literals and quoted identifiers untouched); the complete "
+        "observable outcome after each statement must be equal, and reported names must be upper-cased/verbatim. Exploration.",
+        "Error message text and distinctness of \"x\" vs X are not asserted; JSON path keys are excluded from the pool.",
+        "DESIGN.md §4 C02",
+        "exploration",
+    ),
 }
 
 NOT_YET = {}
